@@ -61,6 +61,16 @@ H("channel", "c08_scatter_len_precheck", needs_segment=["scatter_len_precheck"],
 H("protocol", "c09_ip_pre_pattern_independent_of_shares", needs_segment=["ip_pre"],
   what="2-safety: the Some/None pattern (and error behaviour) of the 'wire shares' messages is the same for any two sets of share values", bounds="n=3, own index 1, two Input instructions with symbolic owners", functions=["mpc::protocol::input_processing (segment before scatter)"], panic_prop="C08")
 
+# C06 (partial)
+H("protocol", "c06_masked_input_contains_own_share", needs_segment=["ip_mid"],
+  what="revealed input bit == input ^ own mask share ^ peer mask share; nothing revealed for foreign wires", bounds="n=2, honest peer share (valid MAC), all values symbolic", functions=["mpc::protocol::input_processing (segment between scatter and broadcast)"], panic_prop="C08")
+H("protocol", "c06_own_input_share_not_sent", needs_segment=["ip_pre"],
+  what="the own mask share of an own input wire is placed in no outgoing 'wire shares' message", bounds="n=3, own index 1, two Input instructions with symbolic owners", functions=["mpc::protocol::input_processing (segment before scatter)"], panic_prop="C08")
+H("protocol", "c06_delta_is_a_random_draw", needs_segment=["delta_draw"],
+  what="the global key is exactly one fresh random() draw", bounds="random() = k-th of four arbitrary values", functions=["mpc::protocol::fn_independent_pre (the expression assigned to delta)"], panic_prop="C08", stubs=["rand::random -> k-th of four arbitrary values"])
+H("faand", "c06_fabitn_own_bits_are_fresh_draws", needs_segment=["fabitn_head"],
+  what="aBit step 1: local mask-share bit k is the k-th random() draw, l + 3*rho of them", bounds="l=2, rho lowered to 1 inside the cut", functions=["mpc::faand::fabitn (step 1 segment)"], panic_prop="C08", stubs=["rand::random -> k-th of six arbitrary bits"])
+
 # C01
 H("protocol", "c01_batch_sizes", what="random_shares_batch_size / and_share_batch_size through the real Context::new: 0 iff total 0, <= total, >= min(total,1000), <= 9 chunks, single batch up to 1000, len*bucket*3 cannot overflow",
   bounds="all input counts < 2^39 per party (2 parties), and_ops < 2^40", functions=["mpc::protocol::Context::new", "Context::random_shares_batch_size", "Context::and_share_batch_size", "mpc::faand::bucket_size"], panic_prop="C01")
@@ -314,6 +324,17 @@ PROPS["C05"] = dict(
     harnesses=hs("c05_output_tail_non_output_party_gets_nothing", "c05_ip_pre_n3", "c05_output_share_msg_n3", "c05_output_lambda_msg_n3", "c05_output_recipients"),
 )
 
+PROPS["C06"] = dict(
+    level="model_checking",
+    level_text="Bounded model checking of the structural half of C06: the revealed input bit is input XOR a mask that contains the party's own mask share; that own share is placed in no outgoing message; the own mask-share bits and the global key are each their own random() draw (random() modelled as a sequence of arbitrary values).",
+    level_note="Partial: structure only. NOT claimed: uniformity/balance of the revealed bit, freshness across executions, absence of plain input runs in the traffic (statements about distributions over coin tosses; a solver treats the RNG as unconstrained environment). " + SEG,
+    explanation="Segment harnesses over input_processing(), fn_independent_pre() and fabitn() step 1.",
+    outside="n<=3; distributional statements.",
+    assumptions=[FMT, TRACING, SEG, "rand::random() = the k-th of a fixed number of arbitrary values (textual substitution inside the cut)"],
+    segments=["ip_mid", "ip_pre", "delta_draw", "fabitn_head"],
+    harnesses=by_prefix("c06_"),
+)
+
 PROPS["C07"] = dict(
     level="model_checking",
     level_text="Bounded model checking of two places where a value offset by the global key leaves an honest party: the opening rule of aShare step 3c (d0 ^ delta only for a claim whose MAC verifies under the own key) and the input-label selection (exactly one label per wire, label0 ^ masked bit * delta).",
@@ -396,7 +417,6 @@ PROPS["C20"] = dict(
 # ---------------------------------------------------------------------------------------------
 # Properties not claimed, with the one-line reason (DESIGN.md §3).
 NOT_APPLICABLE = {
-    "C06": "a statement about the distribution of the transcript over coin tosses and freshness across executions; a solver treats the RNG as unconstrained environment and cannot express balance or reuse",
     "C12": "a property of interleavings of several parties' futures; Kani has no concurrency model and the join/scatter layer alone exhausts memory",
     "C13": "polytune-server-core is a tokio actor (mpsc/oneshot/Notify/Semaphore, spawn, Garble compiler); Kani models neither tokio's channels in feasible size nor any interleaving",
     "C14": "same actor code; the handlers cannot be executed symbolically (tokio send().await on both paths)",
